@@ -4,8 +4,11 @@ from . import p_fs, p_plan
 
 CHECKS = {
     "C01": p_plan.check_c01,
+    "C02": p_plan.check_c02,
     "C03": p_plan.check_c03,
     "C05": p_plan.check_c05,
+    "C09": p_plan.check_c09,
+    "C10": p_plan.check_c10,
     "C15": p_fs.check_c15,
     "C16": p_fs.check_c16,
 }
